@@ -1,4 +1,5 @@
 import OjgVerif.Json.BufMain
+import OjgVerif.Json.BufTok
 import OjgVerif.Props.C01Lang
 import OjgVerif.Props.C03Fast
 import OjgVerif.Props.C06
@@ -40,6 +41,39 @@ theorem oj_parser_buf_reader_accepts_spec (chunks : List Bytes) :
     (toOpt (runB ojTables cfgPR FP.all chunks)).isSome = Spec.accepts chunks.flatten := by
   rw [oj_buf_is_machine cfgPR rfl]; exact oj_parser_reader_accepts_spec chunks
 
+/-- oj.Validator, buffer level (`Json/BufModelV.lean`: its own string scan — no guard, `i = 0`,
+`b == '"' && 0 < i` —, `i = 0` before the skip loop of `numNewline`, the parser's whitespace skip and
+literal look-ahead, no digit loops) = byte level -/
+theorem oj_validator_buf_is_machine (cfg : Cfg) (h : cfg.fastInt = false) (chunks : List Bytes) :
+    runBV ojTables cfg chunks = run ojTables cfg chunks :=
+  runBV_eq_run ojTables_ok cfg h chunks
+
+/-- oj.Tokenizer, buffer level (the parser's fast paths, with the integer loop in which `AddDigit`
+decides at the limit) = byte level -/
+theorem oj_tokenizer_buf_is_machine (cfg : Cfg) (h : cfg.fastInt = false) (chunks : List Bytes) :
+    runBT ojTables cfg chunks = run ojTables cfg chunks :=
+  runBT_eq_run ojTables_ok cfg h chunks
+
+/-- **C01 at buffer level for oj.Validate / oj.ValidateReader and oj.Tokenizer** -/
+theorem oj_validator_buf_accepts_spec (bs : Bytes) :
+    (toOpt (runBV ojTables cfg1 [bs])).isSome = Spec.accepts bs := by
+  rw [oj_validator_buf_is_machine cfg1 rfl]; exact oj_accepts_spec bs
+
+theorem oj_validator_buf_reader_accepts_spec (chunks : List Bytes) :
+    (toOpt (runBV ojTables cfgR chunks)).isSome = Spec.accepts chunks.flatten := by
+  rw [oj_validator_buf_is_machine cfgR rfl]; exact oj_reader_accepts_spec chunks
+
+theorem oj_tokenizer_buf_accepts_spec (bs : Bytes) :
+    (toOpt (runBT ojTables cfg1 [bs])).isSome = Spec.accepts bs := by
+  rw [oj_tokenizer_buf_is_machine cfg1 rfl]; exact oj_accepts_spec bs
+
+theorem oj_tokenizer_buf_reader_accepts_spec (chunks : List Bytes) :
+    (toOpt (runBT ojTables cfgR chunks)).isSome = Spec.accepts chunks.flatten := by
+  rw [oj_tokenizer_buf_is_machine cfgR rfl]; exact oj_reader_accepts_spec chunks
+
+example : (toOpt (runBV ojTables cfgR [[91, 34], [34, 44, 34, 97], [34, 44, 10], [32, 49, 93]])).isSome = true := by
+  decide +kernel
+
 -- non-vacuity: the buffer model on a document that takes every fast path, cut inside a string, a
 -- literal and a number
 example : (toOpt (runB ojTables cfgPR FP.all
@@ -65,6 +99,17 @@ theorem buf_no_fault_of_tablesOK {T : Tables} (hT : TablesOK T) (cfg : Cfg) (fp 
   rw [runB_eq_run hT cfg fp hc] at h
   exact no_fault_of_tablesOK hT cfg chunks e h
 
+/-- the same for the validator's and the tokenizer's buffer-level models -/
+theorem oj_validator_buf_no_fault (cfg : Cfg) (hc : cfg.fastInt = false) (chunks : List Bytes) (e : Err)
+    (h : runBV ojTables cfg chunks = .error e) : e.kind.isFault = false := by
+  rw [C01.oj_validator_buf_is_machine cfg hc] at h
+  exact oj_no_fault cfg chunks e h
+
+theorem oj_tokenizer_buf_no_fault (cfg : Cfg) (hc : cfg.fastInt = false) (chunks : List Bytes) (e : Err)
+    (h : runBT ojTables cfg chunks = .error e) : e.kind.isFault = false := by
+  rw [C01.oj_tokenizer_buf_is_machine cfg hc] at h
+  exact oj_no_fault cfg chunks e h
+
 /-- the fault outcome is really there in the model: a slice beyond the buffer is `none` -/
 example : sliceOf [1, 2, 3] 2 5 = none := by decide
 
@@ -81,6 +126,18 @@ theorem oj_parser_buf_chunks_irrelevant (chunks : List Bytes)
     runB ojTables (cfgParser true) FP.all chunks = runB ojTables (cfgParser true) FP.all [chunks.flatten] := by
   rw [C01.oj_buf_is_machine _ rfl, C01.oj_buf_is_machine _ rfl]
   exact oj_parser_chunks_irrelevant chunks h1 h2
+
+/-- **C03 at buffer level, full statement, for the front-ends without the pinned loop**: the validator's and
+the tokenizer's outcome over their buffer-level models depends only on the concatenation of the reads -/
+theorem oj_validator_buf_chunks_irrelevant (chunks : List Bytes) :
+    runBV ojTables C01.cfgR chunks = runBV ojTables C01.cfgR [chunks.flatten] := by
+  rw [C01.oj_validator_buf_is_machine _ rfl, C01.oj_validator_buf_is_machine _ rfl]
+  exact chunks_irrelevant ojTables C01.cfgR rfl rfl chunks
+
+theorem oj_tokenizer_buf_chunks_irrelevant (chunks : List Bytes) :
+    runBT ojTables C01.cfgR chunks = runBT ojTables C01.cfgR [chunks.flatten] := by
+  rw [C01.oj_tokenizer_buf_is_machine _ rfl, C01.oj_tokenizer_buf_is_machine _ rfl]
+  exact chunks_irrelevant ojTables C01.cfgR rfl rfl chunks
 
 end OjgVerif.C03
 
